@@ -8,6 +8,8 @@ import (
 	"sort"
 	"strings"
 
+	"gvc/internal/spec"
+
 	"gvc/internal/contract"
 	"gvc/internal/smt"
 )
@@ -312,7 +314,7 @@ func (e *Engine) assign(st *State, lhs ast.Expr, v Val) error {
 			e.oblige(st, "safety", "nil-deref("+describe(l, e.Fset)+")", l.Pos(), smt.Neq(base.T, NilV))
 			obj := smt.App(smt.V, "select", st.heap, base.T)
 			st.heap = smt.App(smt.Heap, "store", st.heap, base.T, smt.App(smt.V, "f_upd", obj, idx, Box(v.T)))
-			return nil
+			return e.ghostOnAssign(st, e.FID(base.Ty, sel.Index()[0]), l)
 		}
 		return e.assign(st, l.X, Val{smt.App(smt.V, "f_upd", base.T, idx, Box(v.T)), base.Ty})
 	case *ast.StarExpr:
@@ -325,6 +327,76 @@ func (e *Engine) assign(st *State, lhs ast.Expr, v Val) error {
 		return nil
 	}
 	return e.errf(lhs.Pos(), "unsupported assignment target %T", lhs)
+}
+
+// noteGhostRules marks the ghost variables that rules of the given kind update
+// ("<kind> <target>: name = expr") as modified in the loop being analysed.
+func (e *Engine) noteGhostRules(kind string, matches func(target string) bool) {
+	if e.curCon == nil {
+		return
+	}
+	for _, a := range e.curCon.Attrs[kind] {
+		j := strings.Index(a, ":")
+		if j < 0 || !matches(strings.TrimSpace(a[:j])) {
+			continue
+		}
+		if k := strings.Index(a[j:], "="); k > 0 {
+			e.ghostMod[strings.TrimSpace(a[j+1:j+k])] = true
+		}
+	}
+}
+
+// ghostOnAssign: "ghost-on-assign <pkg.Type.field>: name = expr" of the contract
+// under verification updates a ghost variable whenever that field of any object
+// is assigned (a history variable: "some call site has been renamed").
+func (e *Engine) ghostOnAssign(st *State, fid int, at ast.Node) error {
+	if e.curCon == nil {
+		return nil
+	}
+	for _, a := range e.curCon.Attrs["ghost-on-assign"] {
+		j := strings.Index(a, ":")
+		if j < 0 {
+			return fmt.Errorf("%s: ghost-on-assign of %s needs 'pkg.Type.field: name = expr'", e.curCon.File, e.curCon.Key)
+		}
+		want, err := e.anyFieldID(strings.TrimSpace(a[:j]))
+		if err != nil {
+			return fmt.Errorf("%s: ghost-on-assign of %s: %v", e.curCon.File, e.curCon.Key, err)
+		}
+		if want != fid {
+			continue
+		}
+		if err := e.ghostUpdate(st, strings.TrimSpace(a[j+1:]), at.End(), nil); err != nil {
+			return fmt.Errorf("%s: ghost-on-assign of %s: %v", e.curCon.File, e.curCon.Key, err)
+		}
+	}
+	return nil
+}
+
+// ghostUpdate executes "name = expr" on a ghost state variable.
+func (e *Engine) ghostUpdate(st *State, text string, pos token.Pos, bind map[string]Val) error {
+	j := strings.Index(text, "=")
+	if j < 0 {
+		return fmt.Errorf("needs name = expr")
+	}
+	name := strings.TrimSpace(text[:j])
+	x, err := spec.Parse(strings.TrimSpace(text[j+1:]))
+	if err != nil {
+		return err
+	}
+	old, ok := st.named[name]
+	if !ok {
+		return fmt.Errorf("%s is not a ghost state variable", name)
+	}
+	env := e.newEnv(st, pos)
+	for k, v := range bind {
+		env.Bound[k] = v
+	}
+	v, err := e.evalSpec(env, x)
+	if err != nil {
+		return err
+	}
+	st.named[name] = Val{v.T, old.Ty}
+	return nil
 }
 
 func (e *Engine) execIf(st *State, s *ast.IfStmt) ([]outcome, error) {
@@ -553,7 +625,12 @@ func (e *Engine) assignedIn(n ast.Node) (map[*types.Var]bool, bool) {
 				if _, ok := t.Underlying().(*types.Pointer); ok {
 					heap = true
 					if sel := e.info().Selections[x]; sel != nil && len(sel.Index()) == 1 {
-						e.noteFieldWrite(e.FID(e.typeOf(x.X), sel.Index()[0]), x.X)
+						fid := e.FID(e.typeOf(x.X), sel.Index()[0])
+						e.noteFieldWrite(fid, x.X)
+						e.noteGhostRules("ghost-on-assign", func(target string) bool {
+							want, err := e.anyFieldID(target)
+							return err == nil && want == fid
+						})
 					} else {
 						e.fieldWAll = true
 					}
@@ -597,6 +674,10 @@ func (e *Engine) assignedIn(n ast.Node) (map[*types.Var]bool, bool) {
 			}
 			for _, g := range e.callGhostAssigns(s) {
 				e.ghostMod[g] = true
+			}
+			if fn := e.staticCallee(s); fn != nil {
+				key := e.methodKeyAt(s, fn)
+				e.noteGhostRules("ghost-after-call", func(target string) bool { return target == key })
 			}
 		case *ast.FuncLit:
 			return false
